@@ -33,6 +33,7 @@ static bool nontrivial(const zm::Model& m, int64_t t) {
 }
 
 static bool check_zone(const zp::Zone& z, zp::Handle& h, bool in_rc, bool full, vf::Case* fc, std::string* why) {
+  fc->set("sweep", full ? "full" : "thin");  // lets replay re-create the call history of the sweep
   if (!h.ok) { *why = "well-formed TZif file (" + zc::zone_class(z.model) + ") failed to load"; fc->set("load", "failed"); return false; }
   const zp::Anchors an = zp::anchors_for(z.model, full);
   const std::vector<int64_t> deltas = zp::deltas_for(z.model);
@@ -81,9 +82,11 @@ static bool replay(const vf::Case& c, std::string* why) {
   if (!z.model.in_domain()) { *why = "zone outside the property's domain"; return true; }
   zp::Handle h = zp::open_public(z.load_name);
   if (!h.ok) { *why = "well-formed TZif file failed to load"; return false; }
-  if (c.has("t")) return check_instant(z, h, (int64_t)c.num("t"), why);
+  if (c.has("t") && !check_instant(z, h, (int64_t)c.num("t"), why)) return false;
+  if (c.has("t") && !c.has("sweep")) return true;
+  // the single probe passes in a fresh process: re-run the whole deterministic sweep (history-dependent failures)
   vf::Case fc;
-  return check_zone(z, h, false, true, &fc, why);
+  return check_zone(z, h, false, c.get("sweep", "full") == "full", &fc, why);
 }
 
 static void run(const vf::Args& a, vf::Evidence& ev, vf::Reporter& rep) {
